@@ -692,6 +692,32 @@ fn conn(r: &mut Rng, _i: u64, cycles: bool) -> Vec<String> {
             break;
         }
     }
+    // prologue 2 (single port number): two connects wait for the port number, the later one is abandoned; when the
+    // number is released the waiter that is still alive must get it
+    for s in 0..2 {
+        let o = 1 - s;
+        if ports[s] == 1 && handles.is_empty() && r.chance(1, 2) {
+            l.push(format!("connect cw1{s} {} cw1{s} wait=1", sides[s]));
+            l.push(format!("accept aw1{s} {} aw1{s}", sides[o]));
+            l.push("settle".into());
+            l.push(format!("connect cw2{s} {} cw2{s} wait=1", sides[s]));
+            l.push("settle".into());
+            l.push(format!("connect cw3{s} {} cw3{s} wait=1", sides[s]));
+            l.push("settle".into());
+            l.push(format!("cancel cw3{s}"));
+            l.push("settle".into());
+            for h in [format!("{} cw1{s}", sides[s]), format!("{} aw1{s}", sides[o])] {
+                l.push(format!("drop {h} tx"));
+                l.push(format!("drop {h} rx"));
+            }
+            l.push("settle".into());
+            l.push(format!("accept aw2{s} {} aw2{s}", sides[o]));
+            l.push("settle".into());
+            handles.push((s, format!("cw2{s}")));
+            handles.push((o, format!("aw2{s}")));
+            break;
+        }
+    }
     let rounds = if cycles { r.range(3, 8) } else { 1 };
     for round in 0..rounds {
         let steps = if cycles { r.range(3, 8) } else { r.range(4, 18) };
